@@ -452,8 +452,16 @@ func flushLog() {
 			case v := <-logQueue:
 				v.writer.Write(v.value)
 			case <-syncDone.Done():
-				asyncCancel()
-				return
+				// a flush was requested: write what is still queued before acknowledging it
+				for {
+					select {
+					case v := <-logQueue:
+						v.writer.Write(v.value)
+					default:
+						asyncCancel()
+						return
+					}
+				}
 			}
 		}
 	}
